@@ -6,6 +6,7 @@ import Exetera.Lemmas.CatalogueAtomic
 import Exetera.Lemmas.CatalogueHeap
 import Exetera.Lemmas.CatalogueRefineStep
 import Exetera.Lemmas.CatalogueSpec
+import Exetera.Lemmas.CatalogueHandles
 /-!
   C15 — the catalogue stays consistent under any history of structural edits.
   All theorems are about `Exetera.Catalogue.step .repaired` / `run .repaired`, the functions the driver executes
@@ -111,6 +112,21 @@ theorem handles_follow_rename {s : State} (hI : Inv s) (g : Nat) (dict : List (N
   handle_follows_rename hI.toInvCore g dict hok hc
 
 example : ((0, "a"), 0) ∈ exState.cols ∧ viewHandle (renamedState exState 0 exDict) 0 = .named "b" := by decide
+
+/-- … and so does every other open field object of a renamed column: a writeable view (`field.writeable()`, a second wrapper
+    object around the same group, `Op.view`) reads its name from the group, so it reports the old name before and the new
+    name after, and stays valid. -/
+theorem views_follow_rename {s : State} (hI : Inv s) (g : Nat) (dict : List (Name × Name))
+    (hok : RenameOk dict ((ownedBy s.cols g).map (·.1))) {h : Nat} {hd : Handle} {n : Name}
+    (hh : s.handles[h]? = some hd) (hc : hd.closed = false) (hl : ((g, n), hd.oid) ∈ s.links) :
+    viewHandle s h = .named n ∧ viewHandle (renamedState s g dict) h = .named (renOf dict n) :=
+  wrapper_follows_rename hI.toInvCore g dict hok hh hc hl
+
+/-- `exState` plus a writeable view (handle 3) of column x.a (handle 0) -/
+def exViewState : State := run .repaired exState [.view (.byHandle 0)]
+example : Inv exViewState := inv_run _ (inv_all_histories exOps)
+example : (exViewState.handles[3]?).map (·.oid) = (exViewState.handles[0]?).map (·.oid) ∧
+    viewHandle exViewState 3 = .named "a" ∧ viewHandle (renamedState exViewState 0 exDict) 3 = .named "b" := by decide
 
 /-! ### every call is all-or-nothing -/
 
@@ -254,5 +270,47 @@ theorem moved_handles_invalid {s s' : State} {h g : Nat} {n : Name} {hd : Handle
 
 example : (moveField .repaired exState 1 1 "b").isOk = true ∧ viewHandle (moveField .repaired exState 1 1 "b").state 1 = .invalid := by
   decide
+
+/-- The statement one would like for EVERY field object of the moved field — the property's "handles to moved-away fields
+    report themselves invalid" — is
+
+      Inv s → ensureValid s h = .ok hd → hd.owner ≠ some g → moveField .repaired s h g n = .ok () s' →
+      ∀ j hj, s'.handles[j]? = some hj → hj.closed = false → hj.oid = hd.oid → viewHandle s' j = .invalid
+
+    (`MovedHandlesAllInvalid`). It is FALSE for the code as it is (open finding NC15c): `dataframe.move` sets
+    `_valid_reference = False` on the one object it is handed; a second wrapper of the same field (`w = f.writeable()`) is
+    told nothing, keeps `valid == True` and its `name` raises from h5py (`Witness.C15.nc15c_stale_view`,
+    `moved_handles_all_invalid_refuted`). Proved here: the statement under the hypothesis that excludes exactly that — no
+    OTHER open, valid field object wraps the moved field's group. -/
+theorem moved_handles_invalid_partial {s s' : State} (hI : Inv s) {h g : Nat} {n : Name} {hd : Handle}
+    (hv : ensureValid s h = .ok hd) (hne : hd.owner ≠ some g) (hok : moveField .repaired s h g n = .ok () s')
+    (hsole : ∀ j hj, j ≠ h → s.handles[j]? = some hj → hj.closed = false → hj.valid = true → hj.oid ≠ hd.oid) :
+    ∀ j hj, s'.handles[j]? = some hj → hj.closed = false → hj.oid = hd.oid → viewHandle s' j = .invalid :=
+  moveField_cross_all_invalid hI.toInvCore hv hne hok hsole
+
+/-- no other wrapper of x.b in `exState`: handles 0 and 2 wrap other groups -/
+example : ∀ j hj, j ≠ 1 → exState.handles[j]? = some hj → hj.closed = false → hj.valid = true → hj.oid ≠ 1 := by
+  intro j hj hne hh _ _
+  have hlt : j < 3 := (List.getElem?_eq_some_iff.1 hh).1
+  match j, hne, hh with
+  | 0, _, hh => cases hh; decide
+  | 2, _, hh => cases hh; decide
+
+def MovedHandlesAllInvalid : Prop :=
+  ∀ (s s' : State) (h g : Nat) (n : Name) (hd : Handle), Inv s → ensureValid s h = .ok hd → hd.owner ≠ some g →
+    moveField .repaired s h g n = .ok () s' →
+    ∀ j hj, s'.handles[j]? = some hj → hj.closed = false → hj.oid = hd.oid → viewHandle s' j = .invalid
+
+/-- NC15c: with a writeable view (handle 3) of x.a held, moving x.a (handle 0) to frame y leaves the view valid but dangling. -/
+theorem moved_handles_all_invalid_refuted : ¬ MovedHandlesAllInvalid := by
+  intro H
+  have hI : Inv exViewState := inv_run _ (inv_all_histories exOps)
+  have hmv : ∀ r : Res Unit, r.isOk = true → r = .ok () r.state := by
+    intro r hr; cases r with
+    | ok u s1 => rfl
+    | err e s1 => cases hr
+  have := H exViewState (moveField .repaired exViewState 0 1 "ab").state 0 1 "ab" ⟨0, true, some 0, 0, false⟩ hI
+    (by rfl) (by decide) (hmv _ (by decide)) 3 ⟨0, true, some 0, 0, false⟩ (by decide) rfl rfl
+  revert this; decide
 
 end Exetera.Props.C15
